@@ -107,6 +107,12 @@ if __name__ == "__main__":
         T = ["Doc:1#parents@G2:5#members", "G2:5#members@1"]
         case("ttu-subjectset", nss, T, "Doc:1#view@1", g=6,
              comment="KNOWN FINDING F-ttu-type: accepted by the type checker, conforming store, run-time schema error")
+    elif which == "C15":
+        nss = [ns("doc", rel("a", [("group", "member")]), perm("p", "and", c("a"), c("p")), perm("q", "or", NOT(c("q")))), group]
+        T = ["doc:1#a@1"]
+        case("self-recursion-and", nss, T, "doc:1#p@1", g=5,
+             comment="F-rec (fixed by f8476dd): p = a && p must terminate within max-depth (was unbounded recursion during construction)")
+        case("self-recursion-not", nss, T, "doc:1#q@1", g=5)
     elif which == "C03":
         nss = [ns("doc", rel("a", [("group", "member")]), rel("banned", [("group", "member")]),
                   perm("ok", "and", c("a"), NOT(c("banned"))), perm("nand", "or", NOT(AND(c("a"), c("banned"))))), group]
